@@ -342,7 +342,8 @@ class Model:
         if not calls:
             return []
         data = "\n".join(f"{n} {sx_dump(list(a))}" for n, a in calls) + "\n"
-        p = subprocess.run(['bash', '-c', f'ulimit -s unlimited 2>/dev/null; exec {self.exe}'],
+        # 16 GB of address space at most: a model regenerated from a faulty variant can try to build absurd values
+        p = subprocess.run(['bash', '-c', f'ulimit -s unlimited 2>/dev/null; ulimit -v 16000000; exec {self.exe}'],
                            input=data, stdout=subprocess.PIPE, stderr=subprocess.PIPE,
                            text=True, timeout=1800)
         if p.returncode != 0:
